@@ -288,12 +288,16 @@ func copyDBIntoSQLite(source, destination *sql.DB,
 		return err
 	}
 	defer tx.Rollback()
-	deleteProfilesQueryStr := fmt.Sprintf("DELETE from user_profile ")
-	if rows, err := destination.Query(deleteProfilesQueryStr); err != nil {
+	// The destination becomes a copy of the source: both tables are emptied
+	// inside the transaction, so that deletions are mirrored and a failed
+	// copy leaves the previous content.
+	if _, err := tx.Exec("DELETE FROM user_profile"); err != nil {
 		logger.Printf("err='%s'", err)
 		return err
-	} else {
-		rows.Close()
+	}
+	if _, err := tx.Exec("DELETE FROM expiring_signed_user_data"); err != nil {
+		logger.Printf("err='%s'", err)
+		return err
 	}
 	stmtText := saveUserProfileStmt[destinationType]
 	stmt, err := tx.Prepare(stmtText)
